@@ -260,8 +260,18 @@ class World:
                     self.h.harvest_combos(self.ell[k], overwrite=pol,
                                           verbosity=0)
                 elif kind == "hcases":
-                    self.h.harvest_cases(pts, fn_args=["a", "b"], sync=True,
-                                         overwrite=pol, verbosity=0)
+                    if k % 2:
+                        # (dict cases whose key order varies from case to
+                        # case)
+                        dc = [dict([("a", a_), ("b", b_)][::(1 if i_ % 2
+                                                              else -1)])
+                              for i_, (a_, b_) in enumerate(pts)]
+                        self.h.harvest_cases(dc, sync=True, overwrite=pol,
+                                             verbosity=0)
+                    else:
+                        self.h.harvest_cases(pts, fn_args=["a", "b"],
+                                             sync=True, overwrite=pol,
+                                             verbosity=0)
                 else:
                     ds = xyz.Runner(self.fs[ver], var_names="out").run_combos(
                         {"a": ra, "b": rb}, verbosity=0)
